@@ -106,6 +106,6 @@ Theorem push_to_own_handlers sb p h q : In (h, q) (deliver sb p) -> q = p /\ In 
 Proof.
   unfold deliver. destruct (route_of p) eqn:R; try contradiction. rewrite in_map_iff. intros (h' & E & I). injection E as Eh Ep. subst h' q.
   repeat split; auto. unfold route_of in R. destruct (w_cmd p <=? c_CMD_RECONNECT).
-  - repeat match goal with H : context [if ?c then _ else _] |- _ => destruct c end; discriminate.
+  - repeat match goal with H : context [if ?c then _ else _] |- _ => destruct c end; try discriminate; destruct (w_ty p); discriminate.
   - destruct (w_ty p); try discriminate. reflexivity.
 Qed.
